@@ -23,7 +23,7 @@ ids of the E lines and the `P dist` values.  An ordering failure is attributed t
 was yielded after a farther one has an enclosing search node (in the structure reported by `verif_nodes`,
 leaf membership from `F order`, validated against the reported leaf boxes) whose box contains the element
 and whose priority exceeds the
-element's distance (the root excepted: it is alone in the queue when it is popped); the leaf boxes' own `min_distance` is never used by the iterator and is only counted.
+element's distance while the query lies outside the box (the root excepted: it is alone in the queue when it is popped); the leaf boxes' own `min_distance` is never used by the iterator and is only counted.
 -/
 namespace Tbx.Drv.C12
 open Tbx Tbx.Drv Tbx.RTree
@@ -347,8 +347,13 @@ def handle (c : Case) : CaseOut := Id.run do
                     -- the root (last search node) is alone in the queue when popped: its priority is never compared
                     -- and the box must really enclose the element: then `min_distance(box) > distance(element)`
                     -- says that the corner minimum is not a lower bound of the distance to the box (D7)
-                    if a + 1 < nprio.size && nprio.getD a 0 > pr.2 && found.isNone
-                        && a < nboxA.size && (nboxA.getD a default).containsBox (boxOf.getD pr.1 default) then
+                    -- D7 is about queries OUTSIDE the box (corner minimum instead of the distance to the box); a box
+                    -- that contains the query (borders included) must have distance 0 and is never excused
+                    let bx := nboxA.getD a default
+                    let qIn := decide (bx.minLat ≤ p.q.lat) && decide (p.q.lat ≤ bx.maxLat) &&
+                               decide (bx.minLon ≤ p.q.lon) && decide (p.q.lon ≤ bx.maxLon)
+                    if a + 1 < nprio.size && nprio.getD a 0 > pr.2 && found.isNone && !qIn
+                        && a < nboxA.size && bx.containsBox (boxOf.getD pr.1 default) then
                       found := some a
                     cur := par.getD a none
                   | none => pure ()
